@@ -55,7 +55,7 @@ class FrameSpec(diffprop.Spec):
 class C04(FrameSpec):
     id = "C04"
     design_ref = "DESIGN.md §6 C04"
-    technique = "Lean 4 proof (reader algebra: decoders over chunked sources = scan of the flattened stream; encode/decode round trips by induction) with differential correspondence on the real codecs"
+    technique = "Lean 4 proof (reader algebra: decoders over chunked sources = scan of the flattened stream; encode/decode round trips by induction; end-to-end composition with the channel and transport-wrapper models) with differential correspondence on the real codecs and the codecs' guards re-extracted from the source on every run (T3) and proved to mean the model's guards"
     level_text = ("Lean 4 theorems over an executable model of the frame codecs on a chunked transport source: every reading primitive depends only on the flattened stream "
                   "(fragmentation independence for every chunking), each encoder/decoder pair round-trips every admissible payload list consuming exactly each frame, and the repaired "
                   "encoders either emit a header that reads back as the body length or raise. The model is tied to the real codecs by differential runs (encode, re-fragment, decode with "
